@@ -105,87 +105,7 @@ def err_only_guard(an, d):
     return False
 
 
-def failure_propagated(an, cs, dty):
-    """every outcome of the function reached with the call's result being Err / None is an error (or the result itself, returned unchanged)"""
-    from ..streamrules import _bypass
-    R = cs.result
-    vs = ["Ok", "Err"] if dty.startswith("result::Result") else ["Some", "None"]
-    base, names = an.norm_var(R, vs)
-    if base is None:
-        return True, "statically known outcome"
-    failname, okname = names[1], names[0]
-
-    def is_forward(t):
-        if t is R:
-            return True
-        for cand in (["Ok", "Err"], ["Some", "None"]):
-            bx, nx = an.norm_var(t, cand)
-            if bx is base and nx[1] == failname:
-                return True
-        return False
-
-    def is_err(t):
-        return t.op == "agg" and t.args[3] == "Err"
-    ps = an.paths()
-    if ps is not None:
-        # loop-free body: every path through the call site must know how the read ended, and a failed read must end in an error
-        through = [(t, st, [c for c in calls if c.block == cs.block][0]) for t, st, calls in ps if any(c.block == cs.block for c in calls)]
-        if not through:
-            return True, "the call is on no feasible path"
-        fail = nfwd = 0
-        for t, st, c in through:
-            # on a single path the call's result is a path-specific term
-            b2, n2 = an.norm_var(an.simp(c.result, st.facts), vs)
-            if b2 is None:
-                if n2 == 1:
-                    fail += 1
-                    if not is_err(t):
-                        return False, "an outcome reached with the read having failed returns %s" % pp(t)[:140]
-                continue
-            fwd = t is c.result or any(an.norm_var(t, cand)[0] is b2 and an.norm_var(t, cand)[1][1] == n2[1] for cand in (["Ok", "Err"], ["Some", "None"]))
-            if ("var", b2, n2[1]) in st.facts:
-                fail += 1
-                if not is_err(t) and not fwd:
-                    return False, "an outcome reached with the read having failed returns %s" % pp(t)[:140]
-            elif ("var", b2, n2[0]) in st.facts:
-                continue
-            elif fwd:
-                nfwd += 1
-            else:
-                return False, "a path through the read returns %s without its result having been examined (dropped, `.ok()`, `unwrap_or`, handed to a combinator...)" % pp(t)[:100]
-        if fail == 0 and nfwd == 0:
-            return False, "no outcome of the function is tied to the failure of this read"
-        return True, "on all %d paths through the read its failure ends in an error (or the result is forwarded)" % len(through)
-    leaves = an.ret_leaves()
-    if leaves is None:
-        return False, "cannot enumerate outcomes"
-
-    def tests(d):
-        if d.op != "discr":
-            return False
-        x = d.args[0]
-        for cand in (["Continue", "Break"], ["Ok", "Err"], ["Some", "None"]):
-            bx, _ = an.norm_var(x, cand)
-            if bx is base:
-                return True
-        return False
-    tested = [b for b, d in an.switches.items() if b in an.entry and tests(d) and an.dominates(cs.block, b)]
-    forwarded = [t for t, st in leaves if is_forward(t)]
-    if not tested:
-        if forwarded:
-            return True, "result returned unchanged"
-        return False, "the result is never examined (dropped, `.ok()`, `unwrap_or`, `if let`, handed to a combinator...)"
-    if _bypass(an, cs.block, tested[0]) and not forwarded:
-        return False, "a path from the read reaches a return without examining its result"
-    fail = 0
-    for t, st in leaves:
-        if ("var", base, failname) in st.facts:
-            fail += 1
-            if not is_err(t) and not is_forward(t):
-                return False, "an outcome reached with the read having failed returns %s" % pp(t)[:140]
-    if fail == 0:
-        return False, "no outcome of the function is tied to the failure of this read"
-    return True, "the %d outcome(s) reached with the read having failed are errors" % fail
+from ..streamrules import failure_propagated
 
 
 def run(ctx, rep):
@@ -392,12 +312,19 @@ def run(ctx, rep):
             for b, d in an.switches.items():
                 if b in an.entry and mentions(d):
                     n_obs += 1
+                    if d.op == "discr":
+                        # `helper(..)?` where the helper is `if c {Err} else {Ok}`: the branch is on c
+                        bx, _ = an.norm_var(d.args[0], ["Continue", "Break"])
+                        if bx is not None and bx.op == "ite":
+                            d = bx.args[0]
                     rep.require(err_only_guard(an, d), "stream-length-observed", "%s|guard" % fn["qual"], wh(an.blocks[b]["term"]["span"]),
                                 "stream length only decides between proceeding and an error",
                                 "%s branches on the stream length without one branch being error-only: %s" % (fn["qual"], pp(d)[:160]))
             for cs in an.calls():
                 if cs.callee.get("resolved_crate") == F["crate"] and cs.callee_qual.startswith("elf_stream::CachingReader::"):
                     continue
+                if cs.declared_norm in ("ops::Try::branch", "ops::FromResidual::from_residual"):
+                    continue      # `?` plumbing: the switch that follows is judged above
                 for a in cs.arg_values():
                     if mentions(a) and "fmt::" not in cs.declared_norm and not (a.op == "refval" and not mentions(a.args[0]) ):
                         # passing &self (whole reader) to its own methods is fine; a computed value is not
